@@ -224,6 +224,11 @@ func (s *Side) Start() {
 					w.Sim.Logf("WIRE %s got counter=%d id=%x -> app=%v err=%v", s.Name, binary.BigEndian.Uint32(in[:4]), in[len(in)-4:], out != nil, err)
 				}
 				w.onDeliver(s, gen, ch, out, err)
+				// the transport reuses its receive buffer once the callback returns: a channel
+				// (or session) that kept a reference to its input is found out
+				for i := range in {
+					in[i] = 0xA5
+				}
 			})
 			if err != nil {
 				return
